@@ -1,0 +1,13 @@
+// Copyright 2021-present The Atlas Authors. All rights reserved.
+// This source code is licensed under the Apache 2.0 license found
+// in the LICENSE file in the root directory of this source tree.
+
+//go:build verif
+
+package cmdapi
+
+import "ariga.io/atlas/sql/migrate"
+
+// verifPoint is a named crash point for the verification
+// harness (see sql/migrate/verif_on.go).
+func verifPoint(name string) { migrate.VerifPoint(name) }
